@@ -1,5 +1,6 @@
 import XmppModel.Model.Jid
 import XmppModel.Lemmas.Jid
+import XmppModel.Lemmas.JidHeap
 import XmppModel.Generated.C11
 /-!
 # C11 — JIDs are canonical
@@ -462,5 +463,117 @@ theorem C11_nonvacuous :
     (⟨[0x61, 0x62, 0x63], 1, 1⟩ : Jid).toString = [0x61, 0x40, 0x62, 0x2f, 0x63] ∧
     parse idNorm [0x61, 0x40, 0x62, 0x2f, 0x63] = .ok ⟨[0x61, 0x62, 0x63], 1, 1⟩ := by
   refine ⟨by rfl, by rfl, by rfl⟩
+
+/-! ### JIDs are values: no operation changes what another JID reports
+
+The Go representation shares backing arrays between JID values.  `Model/JidHeap.lean` models
+the sharing (arrays, windows with capacity, Go's in-place `append`); the theorems below say
+that the operations of the package nevertheless behave as the pure functions of
+`Model/Jid.lean`.  The harness checks the same statement on the real code: operation
+sequences on live values, all values re-read after every operation (clause `immutable`). -/
+
+open XmppModel.JidHeap in
+/-- regenerated fact: every function of `jid.go`/`unsafe.go` that writes through `append`,
+`copy` or a transformer's `Append` writes only into a slice it made itself; in particular
+`WithResource` copies the bare window first — the flag of the heap model -/
+theorem C11_gen_writes_on_fresh :
+    Generated.C11.writesOnFresh = some [("New", true), ("NewUnsafe", true), ("WithDomain", true),
+      ("WithLocal", true), ("WithResource", true)] ∧
+    (Generated.C11.writesOnFresh.bind (·.lookup "WithResource")) =
+      some codeFlags.copyInWithResource := by decide
+
+open XmppModel.JidHeap in
+/-- **No operation sequence changes an existing value.**  From any state whose values lie in
+allocated arrays, after any sequence of `New`/`Parse`, `Bare`, `Domain`, copies, `WithLocal`,
+`WithDomain`, `WithResource` (any arguments, any capacities) every value that existed before
+still reports exactly what it reported, and the state stays well formed. -/
+theorem C11_ops_do_not_alias (ops : List Op) (st st' : St) (wf : st.WF)
+    (h : run codeFlags st ops = some st') :
+    st'.WF ∧ (∃ more, st'.vals = st.vals ++ more) ∧
+    ∀ j ∈ st.vals, view st'.heap j = view st.heap j := by
+  induction ops generalizing st with
+  | nil =>
+    simp only [run, Option.some.injEq] at h
+    subst h
+    exact ⟨wf, ⟨[], by simp⟩, fun _ _ => rfl⟩
+  | cons op ops ih =>
+    simp only [run] at h
+    split at h
+    · rename_i st₁ hs
+      obtain ⟨wf₁, ⟨j', hv⟩, hkeep⟩ := step_spec (fl := codeFlags) rfl wf hs
+      obtain ⟨wf', ⟨more, hm⟩, hkeep'⟩ := ih st₁ wf₁ h
+      refine ⟨wf', ⟨j' :: more, by rw [hm, hv]; simp⟩, fun j hj => ?_⟩
+      rw [hkeep' j (by rw [hv]; exact List.mem_append_left _ hj), hkeep j hj]
+    · simp at h
+
+open XmppModel.JidHeap in
+/-- in particular, starting from nothing: whatever a value reports when an operation creates
+it, it reports after every continuation of the sequence -/
+theorem C11_values_immutable (ops₁ ops₂ : List Op) (st₁ st₂ : St)
+    (h₁ : run codeFlags ⟨[], []⟩ ops₁ = some st₁) (h₂ : run codeFlags st₁ ops₂ = some st₂) :
+    ∀ j ∈ st₁.vals, view st₂.heap j = view st₁.heap j := by
+  have wf₁ := (C11_ops_do_not_alias ops₁ ⟨[], []⟩ st₁ (fun j hj => by simp at hj) h₁).1
+  exact (C11_ops_do_not_alias ops₂ st₁ st₂ wf₁ h₂).2.2
+
+open XmppModel.JidHeap in
+/-- **The heap operations compute the pure functions** (refinement): the value an operation
+creates reports what the corresponding function of `Model/Jid.lean` returns for the reports of
+its receiver.  (`l`, `d`, `r` are the normalised parts: normalisation does not touch the heap.) -/
+theorem C11_heap_refines (st : St) (i : Nat) (j : HJid) (hi : st.vals[i]? = some j)
+    (hb : j.ll + j.dl ≤ j.s.len) (x : Bytes) (spare : Nat) :
+    (∀ h' j', stepVal codeFlags st (.bare i) = some (h', j') → view h' j' = (view st.heap j).bare) ∧
+    (∀ h' j', stepVal codeFlags st (.copy i) = some (h', j') → view h' j' = view st.heap j) ∧
+    (∀ h' j', stepVal codeFlags st (.withLocal i x spare) = some (h', j') →
+      view h' j' = ⟨x ++ (view st.heap j).data.drop j.ll, x.length, j.dl⟩) ∧
+    (∀ h' j', stepVal codeFlags st (.withDomain i x spare) = some (h', j') →
+      view h' j' = ⟨(view st.heap j).data.take j.ll ++ x ++ (view st.heap j).data.drop (j.ll + j.dl),
+        j.ll, x.length⟩) ∧
+    (∀ h' j', stepVal codeFlags st (.withResource i x spare) = some (h', j') →
+      view h' j' = ⟨(view st.heap j).data.take (j.ll + j.dl) ++ x, j.ll, j.dl⟩) := by
+  have hbare : read st.heap (bareS j) = (read st.heap j.s).take (j.ll + j.dl) := by
+    unfold JidHeap.read bareS
+    simp only [List.take_take]
+    rw [Nat.min_eq_left hb]
+  refine ⟨?_, ?_, ?_, ?_, ?_⟩
+  · intro h' j' h
+    simp only [stepVal, hi, Option.map_some, Option.some.injEq, Prod.mk.injEq] at h
+    obtain ⟨rfl, rfl⟩ := h
+    simp only [view, Jid.bare, hbare]
+  · intro h' j' h
+    simp only [stepVal, hi, Option.map_some, Option.some.injEq, Prod.mk.injEq] at h
+    obtain ⟨rfl, rfl⟩ := h
+    rfl
+  · intro h' j' h
+    simp only [stepVal, hi, Option.map_some, Option.some.injEq, Prod.mk.injEq] at h
+    obtain ⟨rfl, rfl⟩ := h
+    simp only [view, read_alloc]
+  · intro h' j' h
+    simp only [stepVal, hi, Option.map_some, Option.some.injEq, Prod.mk.injEq] at h
+    obtain ⟨rfl, rfl⟩ := h
+    simp only [view, read_alloc]
+  · intro h' j' h
+    simp only [stepVal, hi, Option.map_some, Option.some.injEq] at h
+    by_cases hx : x = []
+    · simp only [hx, if_true, Prod.mk.injEq] at h
+      obtain ⟨rfl, rfl⟩ := h
+      simp only [view, hbare, hx, List.append_nil]
+    · simp only [hx, if_false, codeFlags, if_true, Prod.mk.injEq] at h
+      obtain ⟨rfl, rfl⟩ := h
+      simp only [view]
+      have ha := alloc_extends st.heap (read st.heap (bareS j)) spare
+      rw [read_appendS _ _ x (by rw [ha.2.1, ha.2.2]; exact Nat.lt_succ_self _)
+        (by simp [alloc, arr_append_new]), read_alloc, hbare]
+
+open XmppModel.JidHeap in
+/-- **Without the copy the sharing shows**: if `WithResource` appended to the bare window
+directly (which is what `append` on a slice with spare capacity does), then
+`New("a","b","cd")`, `Bare()`, `WithResource("x")` would change the resourcepart the first
+value reports from `cd` to `xd` — so the fact `C11_gen_writes_on_fresh` is load-bearing. -/
+theorem C11_alias_without_copy :
+    ∃ st st', run ⟨false⟩ ⟨[], []⟩ [.newJ [0x61] [0x62] [0x63, 0x64] 0] = some st ∧
+      run ⟨false⟩ st [.bare 0, .withResource 1 [0x78] 1] = some st' ∧
+      (st.vals.map (view st.heap)) = [⟨[0x61, 0x62, 0x63, 0x64], 1, 1⟩] ∧
+      (st.vals.map (view st'.heap)) = [⟨[0x61, 0x62, 0x78, 0x64], 1, 1⟩] :=
+  ⟨_, _, rfl, rfl, rfl, rfl⟩
 
 end XmppModel.Props.C11
